@@ -20,7 +20,7 @@ def usage_cases(rng, n):
     cs = []
     for i in range(n):
         compat, flags = sc.pick_cfg(rng)
-        user = b"ab:cd"; key = b"pw"
+        user = rng.choice([b"ab:cd", b"ab:cd", b"x" * 40 + b":y", b"u" * 120 + b":" + b"v" * 79]); key = b"pw"
         r = rng.random()
         if r < 0.4:
             m = sc.valid_msg(rng, compat, flags, cls=rng.choice([0, 2, 3]), method=rng.choice([1, 3, 4, 8]), key=key if rng.random() < 0.7 else None,
@@ -30,7 +30,7 @@ def usage_cases(rng, n):
             b = g.unhx_case = None
             line, _k = sc.gen_case(rng, i, ["hostile"])
             b = bytes.fromhex(line.split()[-1]) if line.split()[-1] != "-" else b""
-        cap = rng.choice([0, 1, 19, 20, 24, 28, 44, 60, 64, 80, 100, 576, 1280, 1300, rng.randrange(0, 1301)])
+        cap = rng.choice([0, 1, 19, 20, 24, 28, 44, 60, 64, 80, 100, 120, 160, 200, 235, 236, 300, 576, 1280, 1300, rng.randrange(0, 1301)])
         cs.append(("u%d %d %d %d %d %d %s %s" % (i, compat, flags, rng.randrange(0, 4), rng.randrange(0, 5), cap,
                                               sc.vtable([(user, key), (b"", b"x")]), g.hx(b)), "usage"))
     return cs
@@ -40,6 +40,10 @@ def usage_oracle(line, out):
     if "ABORT" in out:
         return "an internal assertion / abort() was reached in a usage-level function"
     cap = int(line.split()[5])
+    if " rm=0" in out:
+        return "the reply's mapped address does not read back as the source address it was built from"
+    if " ru=0" in out:
+        return "the reply reported as complete does not echo the request's USERNAME"
     if " rw=0" in out or " uw=0" in out:
         return "a reply builder reported a length for bytes that are not a complete well-formed STUN message (%s)" % " ".join(w for w in out.split() if w.startswith(("rp=", "rw=", "ue=", "uw=")))
     for w in out.split():
